@@ -779,7 +779,7 @@ def _flush_inline(w):
     if s.endswith("\n"):
         s = s[:-1]
     for k, ln in enumerate(s.split("\n")):
-        mm = re.search(r"//[^/]*?((?:@C\d+\.[A-Za-z0-9_.\-]+\s*)+)$", ln)
+        mm = re.search(r"//.*?((?:@C\d+\.[A-Za-z0-9_.\-]+\s*)+)$", ln)     # (the comment may contain '/')
         if mm and ln.split("//")[0].strip():
             # labelled proof hint inserted into a function body: a failing assert / lemma call on
             # this line is reported under the label
